@@ -14,6 +14,9 @@ A type spec is a JSON-able dict:
   {"k": "newtype"|"alias"|"stralias", "name", "mod", "a": [X]}
   {"k": "final"|"classvar", "a": [X]}
   {"k": "ref", "name", "mod"}                      reference to an enclosing class (recursion)
+  {"k": "latealias", "name", "mod", "a": [X], "wrapper": "alias"|"newtype"}
+                                                   a named (non-string) alias / NewType declared *after* the classes it
+                                                   mentions; class fields refer to it by its (quoted) name
 
 `materialise(spec)` synthesises real modules (registered in sys.modules under fresh names) and
 evaluates the root annotation. Everything here is independent of typelib.
@@ -124,7 +127,7 @@ def spec_key(spec) -> str:
 
 def strip(spec):
     """The spec with NewType/alias/Final/ClassVar wrappers removed at the top."""
-    while spec["k"] in ("newtype", "alias", "stralias", "final", "classvar"):
+    while spec["k"] in ("newtype", "alias", "stralias", "final", "classvar", "latealias"):
         spec = spec["a"][0]
     return spec
 
@@ -159,8 +162,16 @@ class Materialised:
         self.class_specs: dict[tuple, dict] = {}
         self._declared: set = set()
         self._future: dict[int, bool] = {}
+        self._late: list = []
         try:
             self._collect(spec)
+            for ls in self._late:   # named aliases over classes that had to exist first
+                inner = self.expr(ls["a"][0], at_mod=ls["mod"], quote_refs=False)
+                if ls.get("wrapper") == "newtype":
+                    self._exec(ls["mod"], f"{ls['name']} = typing.NewType({ls['name']!r}, {inner})\n")
+                else:
+                    self._exec(ls["mod"], f"{ls['name']} = typing.TypeAliasType({ls['name']!r}, {inner})\n")
+                self.classes[(ls["mod"], ls["name"])] = self.modules[ls["mod"]].__dict__[ls["name"]]
             self.root_expr = self.expr(spec, at_mod=None, quote_refs=False)
             self.ns = self._eval_ns()
             self.root = eval(self.root_expr, self.ns)  # noqa: S307
@@ -222,6 +233,15 @@ class Materialised:
         """Declare everything `spec` needs, members first (post-order)."""
         k = spec["k"]
         if k == "ref":
+            return
+        if k == "latealias":
+            key = (spec["mod"], spec["name"])
+            if key not in self._declared:
+                self._declared.add(key)
+                self.class_specs[key] = spec
+                self._module(spec["mod"])
+                self._late.append(spec)
+                self._collect(spec["a"][0])
             return
         if k == "class":
             key = (spec["mod"], spec["name"])
@@ -346,7 +366,7 @@ class Materialised:
             return "None"
         if k in ("enum", "class", "newtype", "alias", "stralias"):
             return named(spec)
-        if k == "ref":
+        if k in ("ref", "latealias"):
             n = named(spec)
             return repr(n) if quote_refs else n
         if k == "literal":
@@ -589,7 +609,7 @@ def values(spec, mat: Materialised, *, budget: int = 3, json64: bool = False, ma
         return st.sampled_from(list(mat.cls(spec)))
     if k == "literal":
         return st.sampled_from(spec["values"])
-    if k in ("newtype", "alias", "stralias", "final", "classvar"):
+    if k in ("newtype", "alias", "stralias", "final", "classvar", "latealias"):
         return V(spec["a"][0])
     if k == "ref":
         if budget <= 0:
@@ -714,7 +734,7 @@ def conforms(spec, r, mat: Materialised, path="$", _depth=0, strict=False) -> st
         if any(type(r) is type(v) and r == v for v in spec["values"]):
             return None
         return f"{path}: {r!r} ({type(r).__name__}) is not one of {spec['values']!r}"
-    if k in ("newtype", "alias", "stralias", "final", "classvar"):
+    if k in ("newtype", "alias", "stralias", "final", "classvar", "latealias"):
         return C(spec["a"][0], r, path)
     if k == "ref":
         return C(mat.resolve(spec), r, path)
@@ -843,7 +863,7 @@ def plain_wire(spec, v, mat: Materialised, _depth=0):
         return v.value
     if k == "literal":
         return v
-    if k in ("newtype", "alias", "stralias", "final", "classvar"):
+    if k in ("newtype", "alias", "stralias", "final", "classvar", "latealias"):
         return W(spec["a"][0], v)
     if k == "ref":
         return W(mat.resolve(spec), v)
@@ -1169,7 +1189,7 @@ def deep_value(spec, mat: Materialised, d: int, fan: int = 2, _counter=None, _le
         return list(mat.cls(spec))[0]
     if k == "literal":
         return spec["values"][0]
-    if k in ("newtype", "alias", "stralias", "final", "classvar"):
+    if k in ("newtype", "alias", "stralias", "final", "classvar", "latealias"):
         return D(spec["a"][0])
     if k == "ref":
         if d <= 0:
@@ -1246,3 +1266,28 @@ def value_depth(v) -> int:
         best = max(best, d + inc)
         stack.extend((k, d + inc) for k in kids)
     return best
+
+
+def instance_from_wire(spec, w, mat: Materialised, _depth=0):
+    """An *instance* shaped source for `spec` whose members still hold wire values: structured classes are
+    instantiated (TypedDicts stay dicts), every leaf keeps its wire form ("1.5" for a Decimal)."""
+    I = lambda s, x: instance_from_wire(s, x, mat, _depth + 1)  # noqa: E731
+    k = spec["k"]
+    if k in ("newtype", "alias", "stralias", "final", "classvar", "latealias"):
+        return I(spec["a"][0], w)
+    if k == "ref":
+        return I(mat.resolve(spec), w)
+    if k == "optional":
+        return None if w is None else I(spec["a"][0], w)
+    if k in ("list", "set", "frozenset", "deque", "vtuple"):
+        return [I(spec["a"][0], x) for x in w]
+    if k == "tuple":
+        return [I(s_, x) for s_, x in zip(spec["a"], w)]
+    if k == "dict":
+        return {kk: I(spec["a"][1], vv) for kk, vv in w.items()}
+    if k == "class":
+        kw = {f["n"]: I(f["t"], w[f["n"]]) for f in spec["fields"] if f["n"] in w}
+        if spec["flavour"].startswith("typeddict"):
+            return kw
+        return mat.cls(spec)(**kw)
+    return w
